@@ -287,6 +287,20 @@ def coqchk(module, timeout=1500):
     return rc, out
 
 
+def thorough_coqchk(res, module):
+    """Thorough tier: re-check the property's .vo closure with the independent checker and record the
+    axioms it reports."""
+    t0 = time.time()
+    rc, out = coqchk(module)
+    ax = re.findall(r'^\s*\*\s*Axioms?:\s*(.*?)(?=^\s*\*|\Z)', out, flags=re.S | re.M)
+    res.coverage_extra = getattr(res, 'coverage_extra', {})
+    res.coverage_extra['coqchk'] = dict(rc=rc, wall_s=round(time.time() - t0, 1), tail=out[-1500:])
+    if rc != 0:
+        res.obl['failures'].append('coqchk failed on LP.%s: %s' % (module, out[-800:]))
+    else:
+        res.obl['cmds'].append('coqchk -silent -o -R theories LP LP.%s' % module)
+
+
 # ----------------------------------------------------------------------------
 # evaluating case shards inside Coq
 def coq_str(s):
@@ -434,6 +448,7 @@ def finish(res, tier, seed, t0, level='proof'):
     cov = dict(obligations=obl['obligations'], discharged=obl['discharged'],
                checker_cmd=' && '.join(obl.get('cmds', [])) or 'make', trusted_base=tb)
     cov.update(res.coverage)
+    cov.update(getattr(res, 'coverage_extra', {}))
     cov['obligation_names'] = list(obl.get('axioms', {}).keys())
     cov['broken'] = broken
     cov['known_findings_reproduced'] = sorted(seen_known)
